@@ -326,6 +326,7 @@ func c01Replay(e *core.Env, data json.RawMessage) (bool, string) {
 func init() {
 	core.Register(&core.Check{
 		ID: "C01", Level: "model_checking", Run: c01Run, Replay: c01Replay,
+		Added:       "position life histories (two foreign positions: buy, sell out, new price, unrelated booking; <= 4 | 6 steps) x valuation {CHF, USD, AAPL}; race detector on the valued accrual pipeline scenarios; Delta row of a two-year daily accrual on the free-running binary",
 		QuickBudget: 150 * time.Second, ThoroughBudget: 14 * time.Minute,
 		Rule: "every sequence of <= N body directives (positions in USD/AAPL/EUR on assets and a liability, sale to zero, income collision with a valuation account, negative transfer, two-commodity trade, monthly accrual, six price declarations incl. inverse and chained) x 3 dates, " +
 			"x valuation {none,CHF,USD} x --from/--to x 6 intervals x --last x --diff x --close, text and CSV; invariant: every cell of every Delta row is zero; non-trivial = valued runs that succeed",
